@@ -20,6 +20,9 @@ ENGINE_FILES = ["rules/absint.py", "rules/lp.py", "rules/core.py", "props/memsaf
 
 # (pointer parameter, size parameter, element size)  confirmed by reading each function
 EXTRA_PAIRS = {
+    # al/os.h replacements (analysed in the configuration without the libc functions, see common.os_portable_unit)
+    "timingsafe_bcmp": [("b1", "len", 1), ("b2", "len", 1)],
+    "strlcpy": [("dst", "size", 1)],
     # dns.h
     "DomainNameZonesReverce": [("src", "name_len", 1)],     # dst capacity is name_len + 2 by contract (not a parameter)
     "SequenceOfLabelsToDomainName": [("buf", "buf_size", 1), ("name", "name_buf_size", 1)],
